@@ -311,7 +311,8 @@ def run_ro(case, ses):
     z3 = z3mod()
     masks = {'none': [], 'all': [(None, None)], 'y0:z1': [(0, 1)], 'y1:z0:2': [(1, slice(0, 2))],
              'y0:z2;y1:z0': [(0, 2), (1, 0)], 'y:z1': [(None, 1)]}
-    for name, deps in masks.items():
+    for name, deps in [(n_, d_) for n_ in masks for d_ in ((masks[n_], 'plain'), (masks[n_], 'late-rvar'))]:
+        deps, variant = deps
         with quiet():
             m = ro.Model()
             pad = m.dvar(2)
@@ -327,13 +328,31 @@ def run_ro(case, ses):
                 for r in rows:
                     dep[r, colsel] = 1
             ya = y.to_affine()
+            Cu = np.array([[1.0, 0.0], [0.5, 2.0]])
+            if variant == 'late-rvar':
+                # the rule is used first, ANOTHER random variable is declared afterwards and added: the rule must not
+                # pick up any dependence on it (its coefficient array is padded to the wider layout)
+                u = m.rvar(2)
+                ya = ya + Cu @ u
         ses.stats.programs += 1
         n = m.rc_model.last
         X = pvars('X', (n,))
-        Zp = pvars('Z', (3,))
-        label = 'ro-ldr mask=%s' % name
-        vals = rule_values(ya, X, Zp) if isinstance(ya, RoAffine) else rule_values(ya, X, Zp)
-        znames = ['Z[0]', 'Z[1]', 'Z[2]']
+        nz = 5 if variant == 'late-rvar' else 3
+        Zp = pvars('Z', (nz,))
+        label = 'ro-ldr mask=%s %s' % (name, variant)
+        vals = rule_values(ya, X, Zp)
+        znames = ['Z[%d]' % j for j in range(nz)]
+        if variant == 'late-rvar':
+            for i in range(2):
+                parts = vals[i].split(znames)
+                for k in range(2):
+                    c = parts.get(('Z[%d]' % (3 + k),), Poly()) - float(Cu[i, k])
+                    env = {nm: z3.Real(nm) for nm in c.vars()}
+                    r_, _ = ses.oblige('%s y%d u%d' % (label, i, k), [], [c.z3(env) != 0], kind='undeclared-dependence-zero', twin=False)
+                    if r_ == 'sat':
+                        report(ses, 'ro:extra-dependence-late', '%s: y[%d] picked up a dependence on the later random variable u[%d] '
+                               '(coefficient %s beyond the written %g)' % (label, i, k, c, Cu[i, k]), dict(k='ro', mask=name))
+            znames = znames[:3]
         ok = True
         for i in range(2):
             parts = vals[i].split(znames)
